@@ -303,7 +303,7 @@ def l2_case(args):
     nruns = 0
     same_chr = (tag.startswith("same_") or tag.startswith("same3_"))
     for lengths in (itertools.permutations(range(n)) if not same_chr else [(0, 1)]):
-        for mode in ("default", "high_memory"):
+        for mode in (("default", "high_memory", "reused-folder") if tag.startswith("same3_") and "_mq0_" not in tag else ("default", "high_memory")):
             w, names = l2_world(assign, lengths) if not same_chr else l2_world_same_chr(assign)
             if "_mq0_" in tag:
                 # what aligners write for a read with equally good placements: MAPQ 0 on every record, the primary one included
@@ -315,6 +315,18 @@ def l2_case(args):
             paths = syn.materialise(w, d)
             out = os.path.join(d, "out")
             extra = ["--high_memory"] if mode == "high_memory" else []
+            if mode == "reused-folder":
+                # the output folder holds a complete earlier run (--keep_tmp) of the same reads with primary and secondary flags of the
+                # multi-mapped read exchanged: what that run decided about the read is not this run's business
+                flip = tuple((lt, "s" if f == "p" else "p") for lt, f in assign)
+                w_old, _ = l2_world_same_chr(flip)
+                p_old = syn.materialise(w_old, d + "_old")
+                rc_old = run.run_isoquant(run.base_argv(p_old, out, extra=["--keep_tmp", "--gene_quantification", "all", "--transcript_quantification", "all"]),
+                                          paths["home"], os.path.join(d, "o_old.txt"))
+                shutil.rmtree(d + "_old", ignore_errors=True)
+                if rc_old != 0:
+                    errs.append(("run-failed", "earlier run in the reused folder: exit %d" % rc_old))
+                extra = ["--force"]
             rc = run.run_isoquant(run.base_argv(paths, out, extra=extra + ["--gene_quantification", "all", "--transcript_quantification", "all"]),
                                   paths["home"], os.path.join(d, "o.txt"))
             nruns += 1
